@@ -67,6 +67,8 @@ impl UnixStreamConnect {
 
             // clear the io_flag
             self.io_data.io_flag.store(0, Ordering::Relaxed);
+            #[cfg(may_verif)]
+            crate::verif::syscall();
 
             match self.stream.connect(&self.path) {
                 Ok(_) => return Ok(convert_to_stream(self)),
